@@ -232,6 +232,7 @@ PROPS["C15"] = {
         {"test": "TestC15Sequences", "kind": "enum", "quick": {"shards": 2}, "thorough": {"shards": 16}},
         {"test": "TestC15Trees", "kind": "rapid", "quick": {"checks": 15000, "shards": 4}, "thorough": {"checks": 200000, "shards": 12}},
         {"test": "TestC15Statements", "kind": "rapid", "quick": {"checks": 8000, "shards": 2}, "thorough": {"checks": 150000, "shards": 8}},
+        {"test": "TestC15Names", "kind": "enum", "quick": {"shards": 1}, "thorough": {"shards": 1}},
     ],
     "min_nontrivial": {"quick": 5000, "thorough": 50000},
 }
